@@ -845,12 +845,10 @@ pub(crate) fn composite<S: Sample>(
 ) -> Result<()> {
     let image_header = frame.image_header();
     let frame_header = frame.header();
-    let frame_region = oriented_image_region
-        .translate(-frame_header.x0, -frame_header.y0)
-        .downsample(frame_header.lf_level * 3);
-    let frame_region = util::pad_lf_region(frame_header, frame_region);
-    let frame_region = util::pad_color_region(image_header, frame_header, frame_region);
-    let frame_region = frame_region.upsample(frame_header.upsampling.ilog2());
+    // Only normal frames are composited, and the result is needed for the requested region only. The
+    // frames below were rendered for that region as well; asking for the padded region of this frame
+    // (restoration filters, upsampling) would reach outside of their buffers.
+    let frame_region = oriented_image_region.translate(-frame_header.x0, -frame_header.y0);
     let frame_region = if frame_header.frame_type.is_normal_frame() {
         let full_image_region_in_frame =
             Region::with_size(image_header.size.width, image_header.size.height)
